@@ -176,3 +176,13 @@ CLAIMS['C18'] = dict(category='other', ref='5 Core G, 8 C18',
     note="Trusted: Lean kernel (axioms propext/Classical.choice/Quot.sound only); the lexical extractor extract/facts_locks.go IS the "
          "translator from the program to the table and is not verified; the hand-written expectation table and exception list in "
          "lean/Mqtt/Proofs/LocksTable.lean; the Go memory model as formalised in lean/Mqtt/Spec/Locks.lean; the race workload and report parser")
+
+CLAIMS['C03'] = dict(category='proof', ref='5 Core A, 8 C03',
+    text='Lean 4 theorems about the code-shaped model of package message, for all messages / byte strings / counter values: encode_len (Encode writes exactly Len() bytes), encode_is_wire + decode_encode + encode_succeeds for every message built from Type.New() by setter calls (bytes = MQTT 3.1.1 reference encoding of the fields; decoding them gives equal fields; a well-formed field record is never refused), encode_decode_canonical (every accepted byte string re-encodes to exactly its first n bytes, Len() = n), auto_id_nonzero / auto_id_lt / auto_id_in_packet (all 2^64 counter values); model tied to message/*.go by differential runs (real code vs model vs reference codec written from the specification) and regenerated facts. Decoded-then-modified messages (in-place setter path) are correspondence-checked only.',
+    technique='machine-checked proof in Lean 4 + differential correspondence to the Go code (real code vs code-shaped model vs MQTT 3.1.1 reference codec)',
+    note='Trusted: Lean kernel; axioms propext/Classical.choice/Quot.sound only; Go harness + line protocol + fact extractor; Go runtime semantics assumed by the model (see evidence.assumptions)')
+
+CLAIMS['C04'] = dict(category='proof', ref='5 Core A, 8 C04',
+    text='Lean 4 theorems about the code-shaped model of the 14 decoders, for every type number and every byte string (cap = len): decode_total (never a panic / out-of-bounds access), decode_count_le, decode_fields_inside (every returned field is src[off:off+len] with off+len <= n), decode_keeps_packet, decode_accepts_wf (every well-formed MQTT 3.1.1 packet, followed by anything, is accepted with exactly its fields and length); model tied to message/*.go by differential runs under recover (malformed stream, truncation at every offset, exhaustive small inputs) and regenerated facts. The byte count of error returns is checked by the harness only.',
+    technique='machine-checked proof in Lean 4 + differential correspondence to the Go code (real code vs code-shaped model vs MQTT 3.1.1 reference codec)',
+    note='Trusted: Lean kernel; axioms propext/Classical.choice/Quot.sound only; Go harness + line protocol + fact extractor; Go runtime semantics assumed by the model (see evidence.assumptions)')
